@@ -24,6 +24,7 @@ func genPrelude() string {
 (declare-fun gs.sub (Str Int Int) Str)
 (declare-fun gs.cat (Str Str) Str)
 (declare-fun gs.ofbytes (Int Int Int (Array Int Int)) Str)
+(assert (forall ((b Int) (o Int) (n Int) (A (Array Int Int))) (! (=> (>= n 0) (= (gs.len (gs.ofbytes b o n A)) n)) :pattern ((gs.ofbytes b o n A)))))
 (declare-const gs.empty Str)
 (assert (= (gs.len gs.empty) 0))
 (assert (forall ((s Str)) (! (>= (gs.len s) 0) :pattern ((gs.len s)))))
